@@ -255,6 +255,54 @@ pub fn run_histories(cfg: &Cfg, prop: Prop) -> i32 {
                     }
                 }
             }
+            // ---- likewise for all installed states: the same accept set written differently from
+            // how the agent writes it (by another tool, an older version, by hand) - sibling
+            // prefixes listed separately, adjacent length ranges on one address, an entry that
+            // another one covers. Route-filter entries are keyed by their literal text: deleting
+            // "the aggregate" deletes nothing
+            if prop == Prop::C02 && step > 0 && hotfixed.is_none() && r.chance(1, 6) {
+                let names: Vec<String> = eph.policies.iter().filter(|(_, p)| p.terms.iter().any(|t| t.action == Some(junos::Action::Accept) && !t.filters.is_empty())).map(|(n, _)| n.clone()).collect();
+                if !names.is_empty() {
+                    let name = names[r.below(names.len())].clone();
+                    if let Some(t) = eph.policies.get_mut(&name).and_then(|p| p.terms.iter_mut().find(|t| t.action == Some(junos::Action::Accept) && !t.filters.is_empty())) {
+                        let mut did = Vec::new();
+                        for _ in 0..r.range(1, 3) {
+                            let all: Vec<(String, String)> = t.filters.iter().cloned().collect();
+                            let f = all[r.below(all.len())].clone();
+                            let Some((fam, addr, len, lo, hi)) = junos::filter_range(&f) else { continue };
+                            let max = if fam == 4 { 32u8 } else { 128 };
+                            let text = |a: u128, l: u8, lo: u8, hi: u8| (format!("{}/{}", junos::fmt_addr(fam, a), l), format!("/{lo}-/{hi}"));
+                            let child = |which: u128| addr | (which << (u32::from(max) - u32::from(len) - 1));
+                            match r.below(3) {
+                                0 if lo < hi => {
+                                    let mid = lo + (r.below(usize::from(hi - lo)) as u8);
+                                    t.filters.remove(&f);
+                                    t.filters.insert(text(addr, len, lo, mid));
+                                    t.filters.insert(text(addr, len, mid + 1, hi));
+                                    did.push("adjacent-length-ranges");
+                                }
+                                1 if lo > len && len < max => {
+                                    t.filters.remove(&f);
+                                    t.filters.insert(text(child(0), len + 1, lo, hi));
+                                    t.filters.insert(text(child(1), len + 1, lo, hi));
+                                    did.push("sibling-prefixes-listed-separately");
+                                }
+                                _ if len < max && hi > len => {
+                                    t.filters.insert(text(child(r.below(2) as u128), len + 1, lo.max(len + 1), hi));
+                                    did.push("entry-covered-by-another");
+                                }
+                                _ => {}
+                            }
+                        }
+                        if !did.is_empty() {
+                            did.sort_unstable();
+                            did.dedup();
+                            labels.push(format!("{name}:installed-in-non-aggregated-form({})", did.join("+")));
+                            rep.count("runs_over_an_installed_policy_in_non_aggregated_form");
+                        }
+                    }
+                }
+            }
             let before = eph.clone();
             let key = format!("{before:?}|{managed:?}");
             let wit = |extra: Value, history: &Vec<Value>| json!({"case_index": idx, "seed": cfg.seed, "step": step, "history": history, "inputs": labels,
@@ -516,9 +564,13 @@ fn decorate(r: &mut Prng, body: &str) -> String {
 }
 
 fn gen_stmt(r: &mut Prng, name: &str) -> Stmt {
+    let expr = *r.pick(GOOD_EXPRS);
+    gen_stmt_with(r, name, expr)
+}
+
+fn gen_stmt_with(r: &mut Prng, name: &str, expr: &str) -> Stmt {
     let reject_body = |p: N| p.kid(N::leaf(XNM, "name", name)).kid(N::el(XNM, "then").kid(N::el(XNM, "reject")));
     let base = || N::el(XNM, "policy-statement");
-    let expr = *r.pick(GOOD_EXPRS);
     let with_attrs = |r: &mut Prng, comment: Option<String>, active: Option<&str>| -> N {
         let mut p = base();
         let mut attrs: Vec<(&'static str, String, String)> = Vec::new();
@@ -720,5 +772,126 @@ pub fn run_c16(cfg: &Cfg) -> i32 {
             rep.sample(json!({"config": clip(&text, 900), "expected_selection": want}));
         }
     }
+    rep.finish()
+}
+
+
+/// C16 end to end: the real agent binary against the fake router, which honours the subtree filter
+/// of the agent's <get-config> (as Junos does): what the agent manages is decided by what it asks
+/// for as much as by what it does with the answer. Every statement carries an expression of its
+/// own (a distinct AS with routes in the fake IRR), so "managed" = "its name appears in a load".
+pub fn run_c16_agent(cfg: &Cfg) -> i32 {
+    use crate::e2e::{self, FakeJunos, Script};
+    use irrfake::server::{Faults, Server};
+    use std::time::Duration;
+    let mut rep = Report::new(
+        "C16",
+        cfg,
+        "one evaluation = one run of the real agent binary against a fake router whose running configuration holds 2-7 policy statements of the generated kinds (plus a system stanza and a prefix-list) and which applies the request's subtree filter; \
+         the set of policy names the agent loads is compared with the generator's selection; distinct = distinct configurations",
+    );
+    if !std::path::Path::new(&e2e::agent_bin()).exists() {
+        eprintln!("agent binary not built");
+        return 2;
+    }
+    let n = cfg.count(10, 300);
+    let rt = tokio::runtime::Builder::new_multi_thread().worker_threads(4).enable_all().build().expect("runtime");
+    let irr = match Server::start(crate::c04::simple_db(12), Faults::default()) {
+        Ok(s) => s,
+        Err(e) => {
+            eprintln!("fake irrd: {e}");
+            return 2;
+        }
+    };
+    let names = ["fltr-a", "fltr-b", "p.3", "q_4", "AS65000-in", "zz", "m-7", "n-8", "o-9", "FLTR-A"];
+    for i in 0..n {
+        let idx = cfg.case_index(i);
+        let mut r = cfg.prng("C16-agent", idx);
+        let k = r.range(2, 7);
+        let mut stmts = Vec::new();
+        let mut used: BTreeSet<String> = BTreeSet::new();
+        // the first cases make sure every kind with other content is present
+        for j in 0..k {
+            let name = *r.pick(&names);
+            if !used.insert(name.to_string()) {
+                continue;
+            }
+            stmts.push(gen_stmt_with(&mut r, name, &format!("AS{}", 65000 + j)));
+        }
+        // every run has an annotated statement with other content next to the managed ones: what
+        // the router is asked for must be enough to tell the two apart
+        for want_kind in ["annotated-with-term", "annotated-then-accept"] {
+            if !stmts.iter().any(|s| s.kind == want_kind) && (idx % 2 == 0 || want_kind == "annotated-with-term") {
+                let name = if want_kind == "annotated-with-term" { "with-term" } else { "then-accept" };
+                for _ in 0..400 {
+                    let s = gen_stmt_with(&mut r, name, "AS65010");
+                    if s.kind == want_kind {
+                        stmts.push(s);
+                        break;
+                    }
+                }
+            }
+        }
+        if !stmts.iter().any(|s| s.selected.is_some()) {
+            let name = "always-managed";
+            stmts.push(Stmt { node: candidate_policy(name, "/* bgpfu-fltr: AS65011 */", None), selected: Some((name.into(), "AS65011".into())), kind: "managed", dup_xmlns: false });
+        }
+        let cfg_tree = N::el(XNM, "configuration")
+            .kid(N::el(XNM, "system").kid(N::leaf(XNM, "host-name", "r1")))
+            .kid(N::el(XNM, "policy-options").kid(N::el(XNM, "prefix-list").kid(N::leaf(XNM, "name", "pl-1"))).kids(stmts.iter().map(|s| s.node.clone())));
+        let running = dom::serialise(&cfg_tree, &Style { indent: r.chance(1, 2), ..Style::default() });
+        let script = Script { running: running.clone(), faults: vec![], fail_connections: vec![], ephemeral_name: "bgpfu".into(), chunk: 0, slow_commit: vec![], faults_only_session: None, late_ms: 0, no_match_is_empty_data: false };
+        let irr_port = irr.port();
+        let (run, shared) = rt.block_on(async {
+            let j = FakeJunos::start(script, Config::default()).await.expect("fake junos");
+            let run = e2e::run_agent(j.port, irr_port, 0, &["-v"], &[], Duration::from_secs(25)).await;
+            tokio::time::sleep(Duration::from_millis(20)).await;
+            let sh = j.shared.clone();
+            j.stop();
+            (run, sh)
+        });
+        let g = shared.lock().unwrap();
+        rep.case(Some(running.as_bytes()));
+        for s in &stmts {
+            rep.count(&format!("stmt:{}", s.kind));
+        }
+        if run.timed_out {
+            rep.inconclusive(&format!("case {idx}"), "agent did not exit within 25 s");
+            continue;
+        }
+        let filters: Vec<String> = g.log.iter().filter(|q| q.op == "get-config").map(|q| q.detail.clone()).collect();
+        let wit = |extra: Value| json!({"running": clip(&running, 2500), "statements": stmts.iter().map(|s| json!({"kind": s.kind, "selected": s.selected})).collect::<Vec<_>>(), "exit": run.exit,
+            "get_config_requests": filters, "stderr_tail": clip(&run.stderr.lines().rev().take(6).collect::<Vec<_>>().join(" | "), 900), "unmodelled": g.unmodelled, "case_index": idx, "seed": cfg.seed, "observed": extra});
+        if !g.unmodelled.is_empty() {
+            rep.inconclusive(&format!("case {idx}"), &format!("the fake router does not model: {:?}", g.unmodelled));
+            continue;
+        }
+        let loaded: BTreeSet<String> = g.ephemeral.policies.keys().cloned().collect();
+        let want: BTreeSet<String> = stmts.iter().filter_map(|s| s.selected.clone()).filter(|(_, e)| canonical(e).is_some()).map(|(n, _)| n).collect();
+        if run.exit != Some(0) {
+            rep.violation("agent:run-failed-over-a-legitimate-configuration", &format!("exit {:?}", run.exit), wit(json!({})));
+            continue;
+        }
+        let mut ok = true;
+        for s in &stmts {
+            let name = s.node.kids.iter().find(|k| k.name == "name").and_then(|k| k.text.clone()).unwrap_or_default();
+            let is = loaded.contains(&name);
+            let should = want.contains(&name);
+            if is && !should {
+                ok = false;
+                rep.violation(&format!("agent:manages-but-should-not:{}", s.kind), &format!("the agent loaded filters into policy {name:?} ({})", s.kind), wit(json!({"loaded": loaded})));
+            } else if !is && should {
+                ok = false;
+                rep.violation(&format!("agent:does-not-manage-but-should:{}", s.kind), &format!("the agent loaded nothing for policy {name:?} ({})", s.kind), wit(json!({"loaded": loaded})));
+            }
+        }
+        if ok {
+            rep.count("runs_managing_exactly_the_selection");
+        }
+        if rep.samples.len() < rep.max_samples {
+            rep.sample(json!({"kinds": stmts.iter().map(|s| s.kind).collect::<Vec<_>>(), "loaded": loaded, "get_config_requests": filters}));
+        }
+    }
+    irr.stop();
     rep.finish()
 }
